@@ -46,9 +46,9 @@ class Adapter(EnvAdapter):
                 c("g6a2f1_t3_raw", 6, 2, 1, 3, 3, 5, 7, coop=False, pen=0.5, norm=False, probe_cap=20),
                 c("g6a2f1_t1", 6, 2, 1, 2, 1, 5, 4, probe_cap=20),
                 c("g6a2f1_t2_grid", 6, 2, 1, 2, 2, 5, 5, grid=True, coop=False, probe_cap=20),
-                c("g6a2f1_t100", 6, 2, 1, 6, 100, 4, 40, probe_every=2, probe_cap=20,
+                c("g6a2f1_t100", 6, 2, 1, 6, 100, 4, 40, coop=False, probe_every=2, probe_cap=20,
                   policies=["forage", "crowd"]),
-                c("g7a4f2_fov2_raw", 7, 4, 2, 2, 100, 4, 60, coop=True, norm=False, lvl=3, probe_every=3, probe_cap=40,
+                c("g7a4f2_fov2_raw", 7, 4, 2, 2, 100, 3, 60, coop=True, norm=False, lvl=3, probe_every=4, probe_cap=36,
                   policies=["forage", "crowd"]),
                 c("g7a4f2_t7", 7, 4, 2, 2, 7, 3, 10, coop=False, probe_every=2, probe_cap=36),
                 c("g10a3f3_fov3_grid", 10, 3, 3, 3, 100, 3, 70, grid=True, probe_every=5, probe_cap=30,
@@ -62,22 +62,23 @@ class Adapter(EnvAdapter):
                         episodes=20, max_steps=104, probe_every=3, policies=pol))
         for t in (1, 2, 3, 7, 100):
             ms = min(t, 50) + 4
-            pe = 1 if t <= 7 else 3
+            pe = 1 if t <= 3 else 2 if t == 7 else 6
+            ne = 12 if t <= 7 else 5
             for coop in (True, False):
                 for pen in (0.0, 0.5):
                     norm = not (coop and pen)          # raw rewards on one branch of the matrix
                     tag = f"{'c' if coop else 'n'}{'p' if pen else 'z'}"
-                    out.append(c(f"g6a2f1_t{t}_{tag}", 6, 2, 1, 3 if coop else 6, t, 16, ms, coop=coop, pen=pen,
+                    out.append(c(f"g6a2f1_t{t}_{tag}", 6, 2, 1, 3 if coop else 6, t, ne, ms, coop=coop, pen=pen,
                                  norm=norm, probe_every=pe))
-            out.append(c(f"g7a4f2_fov2_t{t}", 7, 4, 2, 2, t, 12, ms, coop=False, probe_every=pe + 1, probe_cap=48))
-            out.append(c(f"g7a4f2_fov2_t{t}_raw", 7, 4, 2, 2, t, 8, ms, coop=True, pen=0.5, norm=False, lvl=3,
+            out.append(c(f"g7a4f2_fov2_t{t}", 7, 4, 2, 2, t, ne, ms, coop=False, probe_every=pe + 1, probe_cap=48))
+            out.append(c(f"g7a4f2_fov2_t{t}_raw", 7, 4, 2, 2, t, ne // 2 + 1, ms, coop=True, pen=0.5, norm=False, lvl=3,
                          probe_every=pe + 1, probe_cap=48))
-            out.append(c(f"g10a3f3_fov3_t{t}", 10, 3, 3, 3, t, 10, ms, probe_every=pe + 1, probe_cap=40))
-            out.append(c(f"g10a3f3_fov3_grid_t{t}", 10, 3, 3, 3, t, 8, ms, grid=True, coop=False, pen=0.5,
+            out.append(c(f"g10a3f3_fov3_t{t}", 10, 3, 3, 3, t, ne, ms, probe_every=pe + 1, probe_cap=40))
+            out.append(c(f"g10a3f3_fov3_grid_t{t}", 10, 3, 3, 3, t, ne // 2 + 1, ms, grid=True, coop=False, pen=0.5,
                          probe_every=pe + 1, probe_cap=40))
-            out.append(c(f"g6a2f1_grid_t{t}", 6, 2, 1, 2, t, 10, ms, grid=True, probe_every=pe))
-            out.append(c(f"g8a2f2_grid_t{t}", 8, 2, 2, 8, t, 4, ms, grid=True, probe_every=pe + 2, probe_cap=18))
-            out.append(c(f"g8a2f2_fov1_t{t}", 8, 2, 2, 1, t, 8, ms, coop=False, probe_every=pe))
+            out.append(c(f"g6a2f1_grid_t{t}", 6, 2, 1, 2, t, ne, ms, grid=True, probe_every=pe))
+            out.append(c(f"g8a2f2_grid_t{t}", 8, 2, 2, 8, t, 3, ms, grid=True, probe_every=pe + 2, probe_cap=18))
+            out.append(c(f"g8a2f2_fov1_t{t}", 8, 2, 2, 1, t, ne, ms, coop=False, probe_every=pe))
         return out
 
     def make(self, cfg):
